@@ -217,6 +217,7 @@ def coordinator(args):
         log('HARNESS ERROR: %s' % exc)
         return 2
     post_extra = {}
+    more = []
     if hasattr(mod, 'post_check'):
         try:
             more, post_extra = mod.post_check(
@@ -244,7 +245,7 @@ def coordinator(args):
             for sig, n in (r.get('violation_counts') or {}).items():
                 if hs == hash_seeds[0]:
                     counts[sig] = counts.get(sig, 0) + n
-    for v in extra:
+    for v in list(extra) + list(more):
         v = dict(v)
         v.setdefault('hash_seed', hash_seeds[0])
         viols.append(v)
@@ -317,7 +318,9 @@ def run_fresh(prop, docs, hash_seed=7, parallel=8):
             while i < len(docs) and len(running) < parallel:
                 cmd = [PY, os.path.join(HERE, 'run_check.py'), '--oneshot',
                        'fresh', prop, '--spec', files[i]]
-                p = subprocess.Popen(cmd, env=child_env(hash_seed), cwd=HERE,
+                env = child_env(hash_seed)
+                env.update(doc.get('env') or {})
+                p = subprocess.Popen(cmd, env=env, cwd=HERE,
                                      stdout=subprocess.PIPE,
                                      stderr=subprocess.DEVNULL, text=True)
                 running.append((i, p))
